@@ -380,7 +380,31 @@ class Executor:
         import builtins
         if hasattr(builtins, n):
             return PyConst(getattr(builtins, n))
+        r = self.module_level(n)
+        if r is not None:
+            return r
         raise Unsupported(f"unbound name {n}")
+
+    def module_level(self, n):
+        """A name bound at the top level of the module under verification: a plain function (run like a nested closure with no
+        enclosing frame) or a constant built from literals (evaluated natively with no names in scope but a few pure builtins).
+        This is what a helper or a constant hoisted out of the function under contract turns into."""
+        body = getattr(self.module_ast, "body", [])
+        for s in reversed(body):
+            if isinstance(s, ast.FunctionDef) and s.name == n and not s.decorator_list:
+                return Closure(s, Frame(None), name=n)
+            if isinstance(s, ast.Assign) and len(s.targets) == 1 and isinstance(s.targets[0], ast.Name) and s.targets[0].id == n:
+                pure = {"frozenset": frozenset, "set": set, "tuple": tuple, "dict": dict, "list": list, "str": str, "len": len, "range": range,
+                        "sorted": sorted}
+                if all(isinstance(x, ast.Name) and x.id in pure for x in ast.walk(s.value) if isinstance(x, ast.Name)) and not any(
+                        isinstance(x, (ast.Attribute, ast.Lambda, ast.Await, ast.Yield, ast.NamedExpr)) for x in ast.walk(s.value)):
+                    try:
+                        v = eval(compile(ast.Expression(s.value), "<module constant>", "eval"), {"__builtins__": {}}, dict(pure))  # noqa: S307
+                    except Exception:  # noqa: BLE001
+                        return None
+                    return self.wrap_native(v)
+                return None
+        return None
 
     def store_name(self, st, n, v):
         f = st.frame
@@ -461,7 +485,13 @@ class Executor:
                 return z3.IntToStr(v)      # exact for v >= 0 (the only use: counters)
         if isinstance(v, PyConst) and isinstance(v.obj, str):
             return z3.StringVal(v.obj)
-        raise Unsupported(f"str() of {v!r}")
+        # the text of any other value (str() / repr() / format() of an object nothing is known about): an arbitrary string, the
+        # same one for the same value
+        key = ("text-of", id(v) if not isinstance(v, Obj) else ("obj", v.oid))
+        memo = self.__dict__.setdefault("_text_of", {})
+        if key not in memo:
+            memo[key] = (v, self.fresh(z3.StringSort(), "text_of"))
+        return memo[key][1]
 
     def ev_ListComp(self, st, e):
         r = self.model.listcomp(self, st, e)
